@@ -104,6 +104,7 @@ type Gen struct {
 	out       map[*ssa.BasicBlock]*State
 	usedSpecs map[string]bool
 	knownNonNil map[string]bool
+	checkedNonNil map[string][]*ssa.BasicBlock // blocks in which a nil obligation for this term was already emitted
 	onStore   func(g *Gen, st *State, p *Val, pos token.Pos, text string)
 	onAppend  func(g *Gen, st *State, s *Val, n string, pos token.Pos, text string)
 	onCopy    func(g *Gen, st *State, d *Val, n string, pos token.Pos, text string)
@@ -131,6 +132,10 @@ type Hooks struct {
 	onReturn func(g *Gen, st *State, env *Env, r *ssa.Return)
 	onExtWrite func(g *Gen, st *State, s *Val, pos token.Pos, text string)
 	autoInvs map[int][]Clause
+	// paramsNonNil: the safety sweep's default type invariant of inputs - every pointer/interface parameter
+	// (and receiver) of an in-repo function is non-nil unless its contract says `nilable p`; assumed at
+	// entry, proved for every argument at every call site (static and interface) inside a swept function.
+	paramsNonNil bool
 }
 
 type loopInfo struct {
